@@ -23,6 +23,13 @@ static char *v_strndup8(const char *s, size_t n)
 #include "libc_models.h"
 #include "build.h"
 
+#ifdef NOCASE_CTX
+#define REG_CTXF CFGF_NOCASE
+#define IS(c, l) (((c) | 0x20) == (l)) /* names are matched without regard to letter case, section components included */
+#else
+#define REG_CTXF CFGF_NONE
+#define IS(c, l) ((c) == (l))
+#endif
 static int vcb(cfg_t *cfg, cfg_opt_t *opt) { (void)cfg; (void)opt; return 0; }
 static int vcb2(cfg_t *cfg, cfg_opt_t *opt, void *v) { (void)cfg; (void)opt; (void)v; return 0; }
 
@@ -41,7 +48,7 @@ int main(void)
 	init_opt(&ssub[0], "a", CFGT_INT, CFGF_NONE);
 	ropts[1].subopts = ssub;
 	init_opt(&ropts[2], "i", CFGT_INT, CFGF_NONE);
-	init_cfg(&root, "root", ropts, CFGF_NONE);
+	init_cfg(&root, "root", ropts, REG_CTXF);
 	/* instances that already exist when the callback is registered */
 	alloc_values(&ropts[0], 1);
 	mi = ropts[0].values[0]->section = mk_section2("m", NULL, CFGF_NONE);
@@ -58,19 +65,19 @@ int main(void)
 	old = cfg_set_validate_func(&root, vin_path, vcb);
 	(void)old;
 #ifdef PLAIN
-	if (vin_path[0] == 'i') {
+	if (IS(vin_path[0], 'i')) {
 		V_ASSERT(ropts[2].validcb == vcb, "[C14] registering by a plain name sets the callback of that option");
 		V_WITNESS("hit");
-	} else if (vin_path[0] != 'm' && vin_path[0] != 's') {
+	} else if (!IS(vin_path[0], 'm') && !IS(vin_path[0], 's')) {
 		V_ASSERT(ropts[0].validcb == NULL && ropts[1].validcb == NULL && ropts[2].validcb == NULL, "[C14] registering by an unknown name sets nothing");
 		V_WITNESS("miss");
 	}
 #else
-	if (vin_path[0] == 'm') {
+	if (IS(vin_path[0], 'm')) {
 		V_ASSERT(msub[0].validcb == vcb, "[C14] registering by path on a multi section sets the callback in the declarations every later instance is copied from");
 		V_ASSERT(mi->opts[0].validcb == NULL, "[C14] registering on a multi section does not single out an existing instance");
 		V_WITNESS("hit");
-	} else if (vin_path[0] == 's') {
+	} else if (IS(vin_path[0], 's')) {
 		V_ASSERT(si->opts[0].validcb == vcb, "[C14] registering by path on a single section sets the callback of its one instance");
 		V_ASSERT(ssub[0].validcb == vcb, "[C14] registering by path on a single section also reaches the declarations a re-created instance is copied from");
 		V_WITNESS("hit");
